@@ -296,7 +296,8 @@ impl<'s, 'a, 'vm> ser::Serializer for &'s mut Serializer<'a, 'vm> {
     }
 
     fn serialize_u8(self, v: u8) -> Result<Self::Ok> {
-        self.serialize_u64(v as u64)
+        // `u8` corresponds to gluon's `Byte` which has its own representation
+        self.to_value(v)
     }
 
     fn serialize_u16(self, v: u16) -> Result<Self::Ok> {
@@ -320,7 +321,7 @@ impl<'s, 'a, 'vm> ser::Serializer for &'s mut Serializer<'a, 'vm> {
     }
 
     fn serialize_char(self, v: char) -> Result<Self::Ok> {
-        self.serialize_str(&v.to_string())
+        self.to_value(v)
     }
 
     fn serialize_str(self, v: &str) -> Result<Self::Ok> {
